@@ -279,6 +279,9 @@ def verify_contract(repo_root: str, target: str, z3_ms=None, budget_s=600.0) -> 
             res.assumptions |= ex.assumptions_used
             res.solver_s += ex.solver_time
             all_obs.extend(ex.obligations)
+        # "nothing else escapes": one obligation per function, failed by any escape.* obligation
+        if not any("/escape." in ob.oid for ob in all_obs):
+            all_obs.append(Obligation(f"{c.target}/noescape", [], z3.BoolVal(True), "", f"no exception class outside {sorted(c.raises)} reaches the caller on any path", ""))
         # discharge
         for ob in all_obs:
             st, backend, dt, model, reason = discharge(ob, z3_ms)
